@@ -331,3 +331,59 @@ pub fn gen_texts(seed: u64, n: usize, maxlen: i32) -> Vec<Value> {
     }
     out
 }
+
+/// a random JSON document as a tagged value: keys a..h, small integers and halves, heterogeneous arrays
+pub fn rand_doc(g: &mut G, depth: i32) -> Value {
+    let leaf = depth <= 0 || g.rng.gen_bool(0.3);
+    if leaf {
+        return match g.rng.gen_range(0..9) {
+            0 => json!({"t":"null"}),
+            1 => json!({"t":"bool","b":true}),
+            2 => json!({"t":"bool","b":false}),
+            3 | 4 => json!({"t":"num","p":g.rng.gen_range(-3..6),"q":1}),
+            5 => {
+                let p: i64 = 2 * g.rng.gen_range(-3i64..4) + 1;
+                json!({"t":"num","p":p,"q":2})
+            }
+            6 => json!({"t":"str","s":cps("")}),
+            7 => json!({"t":"str","s":cps(["a", "b", "ab", "x"][g.rng.gen_range(0..4)])}),
+            _ => json!({"t":"arr","a":[]}),
+        };
+    }
+    if g.rng.gen_bool(0.5) {
+        let n = g.rng.gen_range(0..6);
+        let a: Vec<Value> = (0..n).map(|_| rand_doc(g, depth - 1)).collect();
+        json!({"t":"arr","a":a})
+    } else {
+        let keys = ["a", "b", "c", "d", "e", "f", "g", "h", "foo", "b_1", "A"];
+        let mut ks: Vec<&str> = keys.iter().cloned().filter(|_| g.rng.gen_bool(0.45)).collect();
+        ks.sort();
+        let o: Vec<Value> = ks.iter().map(|k| json!({"k":cps(k),"v":rand_doc(g, depth - 1)})).collect();
+        json!({"t":"obj","o":o})
+    }
+}
+
+/// random (sentence, document) pairs; each sentence is also paired with documents drawn for other sentences
+pub fn gen_eval(seed: u64, n: usize, maxlen: i32) -> Vec<Value> {
+    let mut g = G::new(seed ^ 0xe7a1);
+    let mut out = vec![];
+    let mut docs: Vec<Value> = (0..20).map(|_| rand_doc(&mut g, 4)).collect();
+    while out.len() < n {
+        g.budget = g.rng.gen_range(3..maxlen.max(4));
+        let mut toks = vec![];
+        g.expr(&mut toks, 0);
+        if toks.len() as i32 > maxlen * 3 {
+            continue;
+        }
+        if g.rng.gen_bool(0.3) {
+            let i = g.rng.gen_range(0..docs.len());
+            docs[i] = rand_doc(&mut g, 4);
+        }
+        for _ in 0..3 {
+            let d = docs[g.rng.gen_range(0..docs.len())].clone();
+            out.push(json!({"toks":toks.clone(),"doc":d}));
+        }
+    }
+    out.truncate(n);
+    out
+}
